@@ -118,12 +118,12 @@ package index
 //@   ensures [crc-gate] (result0 != nil && old(s.config.ValidateSnapshotCRC)) ==> bytesEqTrue > old(bytesEqTrue)
 //@   ensures [nil-or-error] (result0 == nil) <==> (result1 != nil)
 //@   ensures [epoch] result0 != nil ==> result0.epoch == epoch
-//@   ensures {C11} [opened-segments-released-on-failure] result1 != nil ==> segReleased - old(segReleased) == segOpened - old(segOpened)
+//@   ensures [opened-segments-released-on-failure] result1 != nil ==> segReleased - old(segReleased) == segOpened - old(segOpened)
 //@   effect (result1 == nil) <==> loadable(epoch)
 //@   loop 1
-//@     invariant {C11} segOpened == old(segOpened) + rangeindex + 1 && segReleased == old(segReleased)
-//@     invariant {C11} rangeindex < len(snapshot.segment)
-//@     invariant {C11} forall k int :: (0 <= k && k <= rangeindex) ==> (snapshot.segment[k] != nil && snapshot.segment[k].segment != nil)
+//@     invariant segOpened == old(segOpened) + rangeindex + 1 && segReleased == old(segReleased)
+//@     invariant rangeindex < len(snapshot.segment)
+//@     invariant forall k int :: (0 <= k && k <= rangeindex) ==> (snapshot.segment[k] != nil && snapshot.segment[k].segment != nil)
 
 // segOpened / segReleased: segment files opened by loadSegment / references on loaded segments given
 // back (refCounter.DecRef); a snapshot that is abandoned half-loaded has to give back what it opened
